@@ -1,5 +1,6 @@
 import MuscleModel.Wire.Proofs2
 import MuscleModel.Wire.MoreProofs
+import MuscleModel.Wire.ChecksumProofs
 
 /-!
 # C01 — Message serialisation round-trips exactly and its size is exact
@@ -218,5 +219,60 @@ theorem decode_strict_prefix_none_is_false :
     simp [decode, decMsg, decFields, decPayload, decFixed, chunks, rd32, rdN, takeN, leVal, cstr, lookupField,
       upsertField, wireItemSize, oldestProtocolVersion, protocolVersion,
       tcMessage, tcBool, tcDouble, tcFloat, tcInt64, tcInt32, tcInt16, tcInt8, tcPoint, tcRect, tcPointer, tcTag]
+
+/-! ## The content checksum (`Message::CalculateChecksum(false)`) is unchanged by the trip
+
+`checksumMsg` (`Wire/Checksum.lean`) is transcribed from the C++ and compared with it op by op (`cksum` of
+engine `msg`).  Lemmas: `Wire/ChecksumProofs.lean`. -/
+
+/-- The parse of the serialisation has the same checksum as the original: dropping the non-flattenable
+    fields (never counted) and resetting the representation tag do not change it, at any nesting level. -/
+theorem checksum_trip (m : Msg) (h : wfMsg m) : checksumMsg (tripMsg m) = checksumMsg m :=
+  checksumMsg_trip m h
+
+/-- …stated on the parser: whatever `decode` makes of `encode m` (followed by anything) has `m`'s checksum. -/
+theorem checksum_decode_encode (mx : Nat) (m : Msg) (rest : Bytes) (h : wfMsg m) (hd : depthMsg m ≤ mx) :
+    (decode mx (encode m ++ rest)).map checksumMsg = some (checksumMsg m) := by
+  rw [decode_encode_append mx m rest h hd]
+  simp [checksum_trip m h]
+
+/-- A one-item field has the same checksum in the inline representation (`SingleCalculateChecksum`:
+    type code + 1 + item) and in the array representation (the `*DataArray` classes: type code + count +
+    Σ (i+1)·item), for every field type. -/
+theorem checksum_rep_independent (tc : Nat) (x : Bytes) (m : Msg) :
+    checksumField (.fixed tc .inl [x]) = checksumField (.fixed tc .arr [x]) ∧
+    checksumField (.strs .inl [x]) = checksumField (.strs .arr [x]) ∧
+    checksumField (.raws tc .inl [x]) = checksumField (.raws tc .arr [x]) ∧
+    checksumField (.msgs .inl [m]) = checksumField (.msgs .arr [m]) := by
+  simp [checksumField, chkMsgList, chkItems_inl_eq_arr]
+
+/-- …hence the representation tag of any field built through the API (inline only with exactly one item) is
+    irrelevant to the Message checksum. -/
+theorem checksum_rep_independent_items (tc : Nat) (rp : Rep) (cs : List Nat) (h : rp = .inl → cs.length = 1) :
+    chkItems tc rp cs = chkItems tc .arr cs := by
+  rw [chkItems_eq_arr tc rp cs h, chkItems_eq_arr tc .arr cs (by intro e; cases e)]
+
+/-- The checksum ignores the order of the fields ("deliberately NOT considering the ordering of the
+    fields", `Message::CalculateChecksum`): any permutation of the entry list gives the same value. -/
+theorem checksum_order_independent (w : Nat) (fs₁ fs₂ : List (Bytes × Field)) (h : fs₁.Perm fs₂) :
+    checksumMsg (.mk w fs₁) = checksumMsg (.mk w fs₂) := by
+  simp only [checksumMsg, chkFields_perm h]
+
+/-- The Message checksum is the what-code plus one `entryChk` per entry (0 for pointer/tag fields), mod 2^32. -/
+theorem checksum_additive (m : Msg) :
+    checksumMsg m = (m.what + (m.fields.map (fun e => entryChk e.1 e.2)).sum) % 4294967296 := by
+  cases m with
+  | mk w fs => simp only [checksumMsg, Msg.what, Msg.fields, chkFields_eq_sum, M32]
+
+/-! Non-vacuity: the checksum of `sample` computes to the value the C++ prints for the same Message, the trip
+keeps it (the pointer field does not count, the one-item bool array becomes inline), and reversing the
+field list keeps it. -/
+
+example : checksumMsg sample = 2048938212 := by decide
+
+example : checksumMsg (tripMsg sample) = 2048938212 := by rw [checksum_trip sample sample_wf]; decide
+
+example : tripMsg sample ≠ sample ∧ checksumMsg (.mk 42 sample.fields.reverse) = checksumMsg sample :=
+  ⟨by simp [sample, tripMsg, tripFields], checksum_order_independent 42 _ _ (List.reverse_perm _)⟩
 
 end Muscle.Props.C01
